@@ -26,6 +26,10 @@ CHECKS = {
 }
 
 CHECKS.update({
+ "C08": dict(engine="E2 bfs", sec="4/C08", technique=E2 + "; the action alphabet is the union of raw bus messages (which generate every prior state) and whole operations of the real controller",
+   text="One explicit-state search per (sign type, flip style, address) over the real VirtualSignBus: raw messages (control messages, counts, the type's own / another type's / an unsupported / an invalid configuration block, data chunks at offsets 0/16/32) drive the sign into every reachable prior state (all 13 protocol states, half-finished configurations, abandoned transfers with any buffered length up to a page + 16 bytes, previous configuration as another or unknown type, ready-to-reset); from every such state each operation of the real Sign (configure, configure_if_needed, send_pages of 4 lists, show, load_next, shut_down) is executed on the real bus and judged by a promise model that states only what the property states; operation chaining falls out of the search.",
+   note="Modelling assumption on earlier traffic's configuration blocks stated in the evidence; page contents are 4 patterns; thorough adds 6 addresses, richer chunks and a bystander sign."),
+
  "C09": dict(engine="E3 tree + responding bus", sec="4/C09", technique="exhaustive enumeration of (sign type, address, page list, retry schedule, unacknowledged attempt) against the real controller, judged by a trace predicate",
    text="Every combination of the 11 sign types x 4 addresses x retry schedules {S,FS,FFS,FFF} x {configure, send_pages over a table of page lists: 0..16 pages, every page size 16k bytes for k=1..24 (64 thorough) and 255,256,257,4095,4096 (the 16-bit offset limit), mixed sizes, a list of exactly 65535 chunks} x {every attempt acknowledged, or the n-th receive request answered by silence / another operation's ack / a foreign ack / a report} is run on the real Sign against a recording bus; the recorded conversation is judged by a trace predicate (ack before data in every attempt, per-item offsets 0,16,32.., chunks <= 16 bytes, concatenation == item, count == chunks since the request, query after count).",
    note="Transfers above 65535 chunks or pages above 64 KiB are outside the property (16-bit fields); contents are position-identifying fills."),
